@@ -84,7 +84,16 @@ MANIFEST = dict(
          "stored/deflated/first-of-two, compress, lha 0/1/2, arc 1/2/3, Spark, ArcFS, lzx, PowerPacker, MMCMP - intact through "
          "load/test by path and test by FILE, cut at every byte, every allocation failing incl. the reopen of the handle on the "
          "unpacked data), and by the temp-file fault schedule for files routed to an external helper (TMPDIR missing / a regular "
-         "file, mkstemp refused, libc mkstemp at the descriptor limit, fdopen failing; load and test). Reusability after a failed START: proved at ledger level for every oracle and at member level through "
+         "file, mkstemp refused, libc mkstemp at the descriptor limit, fdopen failing; load and test). 'Lets the same context load "
+         "and play another module normally' is evaluated after EVERY refused or faulted load of the whole search: two reference "
+         "modules of other formats (XM, MOD) are loaded into the same context and must hold and render what a fresh context holds "
+         "and renders (module digest, the per-module parameters a loader may install - volume table, c4rate, quirks, flow / event "
+         "/ period modes, volume bases, timing, MIDI macros, extras, comment -, return codes, frame info and PCM of the first "
+         "frames); the failing first load ranges over every module of the format collection test-dev/data/m cut at ~30 lengths "
+         "of its UNPACKED stream (cutting a packed file only exercises the depacker). Post-load calls that allocate "
+         "(xmp_set_player MODE / CFLAGS, xmp_scan_module, start, smix): after each allocation failure position control "
+         "(xmp_set_position / next / prev / seek_time: return codes and landing order, row, sequence, time) must do what it does "
+         "in the twin context - the unfaulted call, or the context that never made the refused call. Reusability after a failed START: proved at ledger level for every oracle and at member level through "
          "C06's model, under the hypotheses that the module has a playable order (the start then leaves mod->len alone) and that the "
          "scan reached the start order; what playback computes from the player view is C06's trusted part. The smix model assumes "
          "that xmp_smix_load_sample writes the slot only at its commit (checked on every run from smix.c: any earlier `xxi->`/`xxs->` "
@@ -124,6 +133,7 @@ WRAP = ["-Wl,--wrap=malloc", "-Wl,--wrap=calloc", "-Wl,--wrap=realloc", "-Wl,--w
         "-Wl,--wrap=libxmp_release_module_extras", "-Wl,--wrap=mkstemp", "-Wl,--wrap=fdopen",
         "-Wl,--wrap=fclose", "-Wl,--wrap=fopen"]
 ENTRIES = ["path", "mem", "file", "cb"]
+REF_MOD = os.path.join(vlib.REPO, "test-dev", "data", "TDZ3.MOD")
 SMIX_SCENARIOS = ["start", "restart", "load", "reload", "loadhdr", "loadshort", "loadrange", "startinval", "end",
                   "startplaying", "endplaying"]
 
@@ -151,6 +161,10 @@ def base_env(scratch, path_prefix=None, tmpdir=None):
         "UBSAN_OPTIONS": "print_stacktrace=1",
         "TMPDIR": tmpdir if tmpdir is not None else os.path.join(scratch, "tmp"),
         "C04_SCRATCH": scratch,
+        # reference modules of two formats: after every refused / faulted load they are loaded into the same context
+        # and must hold and render what a fresh context holds and renders
+        "C04_REF": os.path.join(vlib.REPO, "test", "test.xm"),
+        "C04_REF2": REF_MOD,
     }
     if path_prefix is not None:
         env["PATH"] = path_prefix + ":/usr/bin:/bin"
@@ -740,6 +754,19 @@ def _run(ck, R, exe, quick, scratch, gen=None):
         envf = (lambda d, ip=w["inspath"]: dict(base_env(d), **({"XMP_INSTRUMENT_PATH": ip} if ip else {})))
         add("load:path:companion:" + w["name"], ["faults", "load", "path", w["module"], 0, -1, 1 if not quick or
             os.path.getsize(w["companion"]) < 20000 else 3], kpos=4, env=envf)
+
+    # N. one refused load per FORMAT, then another format in the same context: every module of the format collection
+    #    test-dev/data/m (about 150 formats, many of them packed) is cut at ~30 lengths of its UNPACKED stream (what the
+    #    format loader reads: cutting the packed file only exercises the depacker), loaded from memory, refused, and the
+    #    reference modules must then load and render as in a fresh context (per-module tables, extras, quirks, MIDI
+    #    macros, comments a loader installs before it fails must not survive)
+    fdir = os.path.join(vlib.REPO, "test-dev", "data", "m")
+    fmods = sorted(f for f in (os.path.join(fdir, x) for x in os.listdir(fdir))
+                   if os.path.isfile(f) and 64 <= os.path.getsize(f) <= (400000 if quick else 4000000)) if os.path.isdir(fdir) else []
+    flens = [16, 64, 128, 256, 512, 850, 1024, 1084, 1500, 2048, 3000, 4096, 8192] + ["p%d" % k for k in range(40, 1000, 48 if quick else 12)] + ["p995"]
+    for fm in fmods:
+        add("format-cut:" + os.path.basename(fm), ["trunc", "umem", fm] + flens, malformed=True)
+    ck.note("format_collection_modules", len(fmods))
 
     # J. rescans on a live context: xmp_set_player(MODE / CFLAGS) while playing, xmp_scan_module loaded and playing
     resc = [m for m in mods if re.search(r"\.(mod|xm|it|s3m)$", m, re.I)][:4 if quick else 40]
